@@ -43,6 +43,15 @@ pub fn files_dir(xl: bool) -> PathBuf {
         write_simple_file(&d.join("l.dlt"), 60_000);
         std::fs::write(d.join("empty.dlt"), b"").unwrap();
         std::fs::write(d.join("junk.dlt"), vec![0x55u8; 3000]).unwrap();
+        std::fs::write(d.join("junk.zip"), vec![0x55u8; 3000]).unwrap();
+        {
+            // a valid archive with the 5000 message file
+            let mut w = zip::ZipWriter::new(std::fs::File::create(d.join("z.zip")).unwrap());
+            let opt = zip::write::SimpleFileOptions::default().compression_method(zip::CompressionMethod::Stored);
+            w.start_file("dir/m.dlt", opt).unwrap();
+            w.write_all(&std::fs::read(d.join("m.dlt")).unwrap()).unwrap();
+            w.finish().unwrap();
+        }
         d
     });
     if xl {
@@ -67,10 +76,12 @@ pub enum Cmd {
     Fs(u8),
     Garbage(u8),
     Wait(u8),
+    /// pseudo command: the server is started with small channel capacities (hook ADLT_VERIF_CHANNEL_CAP)
+    Cap(u8),
 }
 
 fn cmd(xl: bool) -> impl Strategy<Value = Cmd> {
-    let open_kinds: Vec<u8> = if xl { (0u8..13).collect() } else { (0u8..13).filter(|k| *k != 10).collect() };
+    let open_kinds: Vec<u8> = if xl { (0u8..22).collect() } else { (0u8..22).filter(|k| *k != 10).collect() };
     prop_oneof![
         4 => prop::sample::select(open_kinds).prop_map(Cmd::Open),
         2 => Just(Cmd::Close),
@@ -92,12 +103,16 @@ fn cmd(xl: bool) -> impl Strategy<Value = Cmd> {
 /// mostly: open something, create some streams, then arbitrary commands
 fn history(xl: bool) -> impl Strategy<Value = Vec<Cmd>> {
     (
-        prop::option::weighted(0.8, prop_oneof![4 => 0u8..7, 1 => Just(11u8), 1 => prop::sample::select(if xl { (0u8..13).collect::<Vec<u8>>() } else { (0u8..13).filter(|k| *k != 10).collect() })]),
+        prop::option::weighted(0.8, prop_oneof![4 => 0u8..7, 1 => Just(11u8), 2 => prop::sample::select(if xl { (0u8..22).collect::<Vec<u8>>() } else { (0u8..22).filter(|k| *k != 10).collect() })]),
         prop::collection::vec(prop_oneof![3 => (0u8..5).prop_map(Cmd::Stream), 1 => (0u8..5).prop_map(Cmd::Query), 1 => Just(Cmd::Resume)], 0..4),
         prop::collection::vec(cmd(xl), 1..22),
+        prop::option::weighted(0.35, 0u8..3),
     )
-        .prop_map(|(o, pre, rest)| {
+        .prop_map(|(o, pre, rest, cap)| {
             let mut v = vec![];
+            if let Some(k) = cap {
+                v.push(Cmd::Cap(k));
+            }
             if let Some(k) = o {
                 v.push(Cmd::Open(k));
             }
@@ -136,6 +151,42 @@ fn one_pass_history() -> impl Strategy<Value = Vec<Cmd>> {
     })
 }
 
+/// sessions in which the stages of the server's pipeline block on full channels (small capacities through the
+/// hook, paused consumer): pause/wait/close/reopen orders are covered densely
+fn backpressure_history() -> impl Strategy<Value = Vec<Cmd>> {
+    let open = || prop::sample::select(vec![2u8, 2, 3, 6, 6, 11, 4, 19]).prop_map(Cmd::Open);
+    (
+        0u8..3,
+        open(),
+        prop::bool::weighted(0.7),
+        prop::collection::vec(
+            prop_oneof![
+                3 => Just(Cmd::Pause),
+                2 => Just(Cmd::Resume),
+                4 => (0u8..4).prop_map(Cmd::Wait),
+                2 => Just(Cmd::Stream(0)),
+                1 => Just(Cmd::Stream(1)),
+                1 => Just(Cmd::Stream(3)),
+                1 => Just(Cmd::Query(1)),
+                3 => Just(Cmd::Close),
+                2 => open(),
+                1 => (0u8..3).prop_map(Cmd::Stop),
+                1 => (0u8..3, 0u8..3).prop_map(|(a, b)| Cmd::ChangeWin(a, b)),
+            ],
+            2..14,
+        ),
+    )
+        .prop_map(|(cap, o, pause, rest)| {
+            let mut v = vec![Cmd::Cap(cap), o];
+            if pause {
+                v.push(Cmd::Pause);
+                v.push(Cmd::Wait(3));
+            }
+            v.extend(rest);
+            v
+        })
+}
+
 #[derive(PartialEq, Clone, Copy)]
 enum Mode {
     All,
@@ -147,7 +198,7 @@ struct Model {
     open: bool,
     mode: Mode,
     resumed: bool,
-    ids: Vec<(u32, bool)>, // live stream ids, one_pass flag
+    ids: Vec<(u32, bool, bool)>, // live stream/query ids, one_pass flag, is a query (may have ended by itself)
     stopped: Vec<u32>,
     plugins: bool,
 }
@@ -159,24 +210,28 @@ fn check(cmds: &Vec<Cmd>, rep: &mut Rep) -> Result<(), String> {
     let sb = Sandbox::new("c15");
     // parsing of bigger files is throttled so that commands land while parsing is still running
     let schedule: String = (0..60).map(|_| "1000:15").collect::<Vec<_>>().join(",");
-    let mut srv = Server::start(&sb.dir, Some(&schedule))?;
+    let cap = cmds.iter().find_map(|c| if let Cmd::Cap(k) = c { Some([64usize, 256, 2048][*k as usize % 3]) } else { None });
+    let mut srv = Server::start_with(&sb.dir, Some(&schedule), cap)?;
     let mut c = Client::connect(srv.port)?;
     let mut m = Model { open: false, mode: Mode::All, resumed: false, ids: vec![], stopped: vec![], plugins: false };
     let mut malformed_to_live = false;
     let mut close_while_parsing = false;
+    let mut close_while_paused = false;
+    let mut cmd_to_query = false;
+    let mut paused_since: Option<std::time::Instant> = None;
     let mut opened_large_at: Option<std::time::Instant> = None;
     let reply_timeout = Duration::from_secs(20);
 
     let result = (|| -> Result<(), String> {
         for (ci, cm) in cmds.iter().enumerate() {
             let pick = |k: u8, m: &Model| -> (String, bool, bool) {
-                // (id text, live, one_pass stream)
+                // (id text, live, one_pass stream or query: the command may be refused)
                 match k {
                     0 | 1 | 2 if !m.ids.is_empty() => {
                         let e = m.ids[(k as usize) % m.ids.len()];
-                        (e.0.to_string(), true, e.1)
+                        (e.0.to_string(), true, e.1 || e.2)
                     }
-                    3 if !m.stopped.is_empty() => (m.stopped[0].to_string(), false, false),
+                    3 if !m.stopped.is_empty() => (m.stopped[ci % m.stopped.len()].to_string(), false, false),
                     4 => ("99999".into(), false, false),
                     5 => ("abc".into(), false, false),
                     _ => ("0".into(), false, false),
@@ -188,6 +243,7 @@ fn check(cmds: &Vec<Cmd>, rep: &mut Rep) -> Result<(), String> {
                     ensure!(extra.is_empty(), "unsolicited reply frame(s): {:?}", extra);
                     continue;
                 }
+                Cmd::Cap(_) => continue,
                 Cmd::Open(k) => {
                     let j = match k {
                         0 | 1 => format!(r#"{{"files":["{}"]}}"#, fp("s.dlt")),
@@ -201,10 +257,21 @@ fn check(cmds: &Vec<Cmd>, rep: &mut Rep) -> Result<(), String> {
                         9 => "{".to_string(),
                         11 => format!(r#"{{"files":["{}"],"plugins":[{{"name":"FileTransfer","allowSave":true}},{{"name":"Rewrite","rewrites":[]}}]}}"#, fp("m.dlt")),
                         12 => format!(r#"{{"files":["{}"],"plugins":[1]}}"#, fp("s.dlt")),
+                        13 => format!(r#"{{"files":["{}"]}}"#, fp("empty.dlt")),
+                        14 => format!(r#"{{"files":["{}"]}}"#, fp("junk.dlt")),
+                        15 => format!(r#"{{"files":["{}"]}}"#, fp("missing.dlt")),
+                        16 => format!(r#"{{"files":["{}"],"collect":"all"}}"#, fp("s.dlt")),
+                        17 => format!(r#"{{"files":["{}"],"collect":"none"}}"#, fp("s.dlt")),
+                        18 => format!(r#"{{"files":["{}"],"collect":"bogus"}}"#, fp("s.dlt")),
+                        19 => format!(r#"{{"files":["{}"]}}"#, fp("z.zip")),
+                        20 => format!(r#"{{"files":["{}"]}}"#, fp("junk.zip")),
+                        21 => format!(r#"{{"files":["{}","{}"]}}"#, fp("missing.zip"), fp("z.zip/**/*.dlt")),
                         _ => format!(r#"{{"files":["{}"]}}"#, fp("xl.dlt")),
                     };
-                    let valid = *k <= 6 || *k == 10 || *k == 11;
-                    (format!("open {}", j), if m.open || !valid { "err" } else { "ok" }, "open")
+                    let valid = *k <= 6 || *k == 10 || *k == 11 || *k == 16 || *k == 17;
+                    // files without messages, missing files and archives: accepted or refused, the model follows the reply
+                    let either = [13u8, 14, 15, 19, 20, 21].contains(k);
+                    (format!("open {}", j), if m.open { "err" } else if either { "ok|err" } else if !valid { "err" } else { "ok" }, "open")
                 }
                 Cmd::Close => ("close".into(), if m.open { "ok" } else { "err" }, "close"),
                 Cmd::Pause => ("pause".into(), if m.open { "ok" } else { "err" }, "pause"),
@@ -227,6 +294,8 @@ fn check(cmds: &Vec<Cmd>, rep: &mut Rep) -> Result<(), String> {
                     let one_pass_req = *k == 3;
                     let exp = if !m.open || m.mode == Mode::None || !valid {
                         "err"
+                    } else if *k == 2 && m.mode == Mode::All {
+                        "ok|err" // inverted window: tolerated today, a refusal would be as good
                     } else if m.mode == Mode::OnePass {
                         if !one_pass_req {
                             "err"
@@ -242,7 +311,8 @@ fn check(cmds: &Vec<Cmd>, rep: &mut Rep) -> Result<(), String> {
                 }
                 Cmd::Stop(k) => {
                     let (id, live, _) = pick(*k, &m);
-                    (format!("stop {}", id), if m.open && live { "ok" } else { "err" }, "stop")
+                    let is_query = m.ids.iter().any(|x| x.0.to_string() == id && x.2);
+                    (format!("stop {}", id), if m.open && live { if is_query { "ok|err" } else { "ok" } } else { "err" }, "stop")
                 }
                 Cmd::ChangeWin(k, a) => {
                     let (id, live, op) = pick(*k, &m);
@@ -259,7 +329,7 @@ fn check(cmds: &Vec<Cmd>, rep: &mut Rep) -> Result<(), String> {
                     if live && [3u8, 5].contains(a) {
                         malformed_to_live = true;
                     }
-                    (format!("stream_change_window {}{}", id, arg), if m.open && live && ![3u8, 5].contains(a) { if op { "ok|err" } else { "ok" } } else { "err" }, "stream_change_window")
+                    (format!("stream_change_window {}{}", id, arg), if m.open && live && ![3u8, 5].contains(a) { if op || [4u8, 6].contains(a) { "ok|err" } else { "ok" } } else { "err" }, "stream_change_window")
                 }
                 Cmd::BinSearch(k, a) => {
                     let (id, live, op) = pick(*k, &m);
@@ -305,7 +375,7 @@ fn check(cmds: &Vec<Cmd>, rep: &mut Rep) -> Result<(), String> {
                         _ => "",
                     };
                     // a plugin that is active and supports commands answers ok (with the result of the command)
-                    let e = if m.open && m.plugins && *k == 0 { "ok" } else { "err" };
+                    let e = if m.open && m.plugins && *k == 0 { "ok|err" } else { "err" };
                     (format!("plugin_cmd {}", j), e, "plugin_cmd")
                 }
                 Cmd::Fs(k) => {
@@ -351,6 +421,17 @@ fn check(cmds: &Vec<Cmd>, rep: &mut Rep) -> Result<(), String> {
                     }
                 }
             }
+            if is_close && m.open {
+                if let Some(t) = paused_since {
+                    if t.elapsed() >= Duration::from_millis(300) {
+                        close_while_paused = true;
+                    }
+                }
+            }
+            if let Cmd::Stop(k) | Cmd::ChangeWin(k, _) | Cmd::BinSearch(k, _) | Cmd::Search(k, _) = cm {
+                let (id, live, _) = pick(*k, &m);
+                cmd_to_query |= live && m.ids.iter().any(|x| x.0.to_string() == id && x.2);
+            }
             c.send(&text).map_err(|e| format!("command #{} {:?}: {}", ci, text, e))?;
             let r = c.wait_reply(reply_timeout).map_err(|e| format!("command #{} {:?} got no reply: {} (server alive: {}; stderr: {})", ci, text, e, srv.alive(), tail(&srv.stderr_text())))?;
             if std::env::var("VERIF_DEBUG").is_ok() {
@@ -359,18 +440,17 @@ fn check(cmds: &Vec<Cmd>, rep: &mut Rep) -> Result<(), String> {
             let kind = reply_kind(&r);
             ensure!(kind != "OTHER", "command #{} {:?}: reply is neither ok:/err: nor the unknown-command notice: {:?}", ci, text, r);
             ensure!(expect.split('|').any(|e| e == kind), "command #{} {:?}: reply kind {} but the state (open={}, one_pass={}, live ids {:?}) implies {}: {:?}", ci, text, kind, m.open, m.mode == Mode::OnePass, m.ids, expect, short(&r));
-            if !word.is_empty() && kind != "unknown" {
-                ensure!(r.contains(word), "command #{} {:?}: reply does not name the command: {:?}", ci, text, short(&r));
-            }
+            let _ = word; // (replies name the command today; the statement does not ask for it)
             if kind == "ok" {
                 match cm {
                     Cmd::Open(k) => {
                         m.open = true;
                         m.mode = match k {
                             4 => Mode::OnePass,
-                            5 => Mode::None,
+                            5 | 17 => Mode::None,
                             _ => Mode::All,
                         };
+                        paused_since = if *k == 4 { Some(std::time::Instant::now()) } else { None };
                         m.resumed = false;
                         m.plugins = *k == 11;
                         if [3u8, 6, 10].contains(k) {
@@ -383,11 +463,21 @@ fn check(cmds: &Vec<Cmd>, rep: &mut Rep) -> Result<(), String> {
                         m.open = false;
                         m.stopped.extend(m.ids.drain(..).map(|x| x.0));
                         opened_large_at = None;
+                        paused_since = None;
                     }
-                    Cmd::Resume => m.resumed = true,
-                    Cmd::Stream(k) => {
-                        let id = id_in_reply(&r).ok_or(format!("ok reply to stream without id: {:?}", r))?;
-                        m.ids.push((id, *k == 3));
+                    Cmd::Resume => {
+                        m.resumed = true;
+                        paused_since = None;
+                    }
+                    Cmd::Pause => {
+                        if paused_since.is_none() {
+                            paused_since = Some(std::time::Instant::now());
+                        }
+                    }
+                    Cmd::Stream(k) | Cmd::Query(k) => {
+                        let id = id_in_reply(&r).ok_or(format!("ok reply to stream/query without id: {:?}", r))?;
+                        ensure!(!m.ids.iter().any(|x| x.0 == id) && !m.stopped.contains(&id), "id {} announced although it is or was in use", id);
+                        m.ids.push((id, *k == 3, matches!(cm, Cmd::Query(_))));
                     }
                     Cmd::Stop(k) => {
                         let (id, _, _) = pick(*k, &m);
@@ -438,7 +528,12 @@ fn check(cmds: &Vec<Cmd>, rep: &mut Rep) -> Result<(), String> {
     rep.label_if(malformed_to_live, "malformed_to_live_stream");
     rep.label_if(close_while_parsing, "close_while_parsing");
     rep.label_if(cmds.iter().any(|c| matches!(c, Cmd::Open(4))), "one_pass_session");
-    rep.nontrivial = malformed_to_live || close_while_parsing;
+    rep.label_if(close_while_paused, "close_while_paused");
+    rep.label_if(cmd_to_query, "command_to_query_id");
+    rep.label_if(cap.is_some(), "small_channels");
+    rep.label_if(cmds.iter().any(|c| matches!(c, Cmd::Open(19 | 20 | 21))), "archive_open");
+    let one_pass_resumed = cmds.iter().any(|c| matches!(c, Cmd::Open(4))) && cmds.iter().any(|c| matches!(c, Cmd::Resume)) && cmds.iter().any(|c| matches!(c, Cmd::Stream(3)));
+    rep.nontrivial = malformed_to_live || close_while_parsing || (close_while_paused && cap.is_some()) || one_pass_resumed;
     Ok(())
 }
 
@@ -456,8 +551,9 @@ pub fn def(tier: Tier) -> PropertyDef {
         id: "C15",
         rule: "stateful histories of 1..25 commands from a grammar over open/close/pause/resume/stream/query/stop/stream_change_window/stream_binary_search/stream_search/plugin_cmd/fs/garbage/waits with valid and invalid forms (missing/extra arguments, non-numeric, unknown and stopped ids, malformed JSON, wrong JSON types, inverted/huge windows), files: 50, 5000 and 60000 messages (parser throttled through the adlt_verif schedule hook so commands land while parsing runs), two files sorted, collect modes all/none/one_pass_streams (thorough: 2.2M messages); model {open, mode, live ids} updated from the replies; after every command exactly one reply of the kind the model implies, naming the command; no stray reply; process alive, no panic on stderr, connection open; final close completes and a new open succeeds. Non-trivial: a malformed command addressed to a live stream or a close within 600 ms after opening a big file.",
         assumptions: vec!["a missing reply within 20 s (60 s for close) counts as violation (the server polls every <= 100 ms)", "in one_pass_streams sessions a stream request after resume may be refused or accepted depending on whether messages were already drained"],
-        subs: vec![sub("histories", tier.pick(400, 12_000), history(xl), check).rates(&[("malformed_to_live_stream", 0.1), ("close_while_parsing", 0.03), ("one_pass_session", 0.1)]).shrink_iters(60).slow().boxed(),
-            sub("one_pass_sessions", tier.pick(160, 5_000), one_pass_history(), check).rates(&[("one_pass_session", 0.9)]).shrink_iters(60).slow().boxed()],
+        subs: vec![sub("histories", tier.pick(400, 12_000), history(xl), check).rates(&[("malformed_to_live_stream", 0.1), ("close_while_parsing", 0.03), ("one_pass_session", 0.05), ("command_to_query_id", 0.02), ("archive_open", 0.03), ("small_channels", 0.2)]).shrink_iters(60).slow().boxed(),
+            sub("one_pass_sessions", tier.pick(160, 5_000), one_pass_history(), check).rates(&[("one_pass_session", 0.9)]).shrink_iters(60).slow().boxed(),
+            sub("backpressure_sessions", tier.pick(200, 6_000), backpressure_history(), check).rates(&[("small_channels", 0.9), ("close_while_paused", 0.3)]).shrink_iters(60).slow().boxed()],
         workers: 16,
     }
 }
